@@ -25,6 +25,7 @@ import (
 type EngineCfg struct {
 	LookbackMs      int64  `json:"lookback_ms,omitempty"`       // 0 = default 5m
 	QueryLookbackMs int64  `json:"query_lookback_ms,omitempty"` // per-query QueryOpts.LookbackDelta
+	EmptyQueryOpts  bool   `json:"empty_query_opts,omitempty"`  // pass non-nil QueryOpts that set nothing
 	Opt             string `json:"opt,omitempty"`               // none|sort|merge|prop|default|all|sort+prop|merge+prop|...
 	Fallback        bool   `json:"fallback,omitempty"`
 	Procs           int    `json:"procs,omitempty"` // GOMAXPROCS during plan creation+execution; 0 = leave
@@ -198,6 +199,8 @@ func NewQuery(e QueryEngine, st storage.Queryable, cfg EngineCfg, q string, w Wi
 	var qo *promql.QueryOpts
 	if cfg.QueryLookbackMs != 0 {
 		qo = &promql.QueryOpts{LookbackDelta: time.Duration(cfg.QueryLookbackMs) * time.Millisecond}
+	} else if cfg.EmptyQueryOpts {
+		qo = &promql.QueryOpts{}
 	}
 	if w.Instant() {
 		return e.NewInstantQuery(st, qo, q, ms(w.StartMs))
